@@ -61,6 +61,7 @@ def impl_run(job):
             vol.py_initialize(np.array(job["x0"], dtype=float), np.zeros(1), 0.0, 1.0)
     delay = {"none": None, "false": False, "true": True}[o["delay"]]
     tp = np.linspace(0, DT * (NT - 1), NT)
+    ic_before = dict(m.get_species_dictionary())
     try:
         res = py_simulate_model(tp, stochastic=o["stochastic"], delay=delay, safe=o["safe"], volume=vol,
                                 return_dataframe=o["dataframe"], **kw)
@@ -93,6 +94,16 @@ def impl_run(job):
             out["volume0"] = float(vtr[0])
             out["divided"] = bool(res.py_cell_divided())
         out["has_queue"] = hasattr(res, "py_get_delay_queue") and res.py_get_delay_queue() is not None
+    # a second, plain call on the SAME model object: its first row must again be the initial condition
+    # (a mode that advanced the model's own initial state in place shows up here, not in its own result)
+    try:
+        ic_after = dict(m.get_species_dictionary())
+        out["ic_changed"] = {k: (float(ic_before[k]), float(ic_after[k])) for k in ic_before if ic_before[k] != ic_after[k]}
+        if o["volume"] not in ("object", "dividing"):
+            r2 = py_simulate_model(tp, Model=m, stochastic=True, return_dataframe=False).py_get_result()
+            out["second_first"] = [float(x) for x in r2[0, :]]
+    except BaseException as e:  # noqa
+        out["second_exc"] = repr(e)[:200]
     return out
 
 
@@ -142,6 +153,10 @@ def judge(rec, got):
         v0 = {"unit": 1.0, "const": 1.5, "object": 1.0, "dividing": 1.0}.get(rec["vol"])
         if v0 is not None and abs(got["volume0"] - v0) > 1e-12:
             return "violation", "shape:volume0:" + sig, "initial volume %r, expected %r" % (got["volume0"], v0)
+    if got.get("ic_changed"):
+        return "violation", "model-changed-by-simulation:" + sig, "the model's initial condition changed during the call: %r" % (got["ic_changed"],)
+    if "second_first" in got and [float(x) for x in exp["first"]] != got["second_first"]:
+        return "violation", "second-call-first-row:" + sig, "a second simulation of the same model starts at %r, the initial condition is %r" % (got["second_first"], exp["first"])
     if [float(x) for x in exp["first"]] != got["first"]:
         return "violation", "first-row:model=%s,sim=%s" % (o["model"], rec["sim"]), "first row %r, expected %r" % (got["first"], exp["first"])
     return "ok", None, None
